@@ -48,6 +48,10 @@ def cases(seed, tier):
     hs = [0.001, 0.002, 0.005, 0.01, 0.02, 0.05]
     for i in range(n):
         h = hs[i % 6]
+        if (i // 24) % 2 == 1:
+            # any interval in the range, not only round ones (1/300 s, 3.7 ms, ...): a "cleaned" or quantised dt only shows there
+            h = float(np.random.Generator(np.random.PCG64(int(seed) * 7 + i)).uniform(0.7, 1.4)) * h
+            h = min(max(h, 0.001), 0.05)
         st = 'rate' if (i // 6) % 2 == 0 else 'increment'
         south = (i // 12) % 2 == 1
         T = float(min(120.0, max(5.0, 12000 * h))) if tier == 'quick' else float(min(400.0, max(5.0, 40000 * h)))
@@ -63,7 +67,7 @@ def cases(seed, tier):
 
 def integrate(m, T, h, sensor, wa=True):
     from pyins import strapdown
-    n = int(round(T / h))
+    n = int(np.floor(T / h + 1e-9))
     tt = np.arange(n + 1) * h
     imu = m.imu(tt, sensor)
     inc = strapdown.compute_increments_from_imu(imu, sensor)
